@@ -86,6 +86,7 @@ type SimFSM struct {
 	lastHandled uint64 // highest index handed to this object (apply or config), or restore index
 	restored    bool
 	restoreIdx  uint64
+	restoreVia  string // what the last Restore of this object came from: "install" (InstallSnapshot), "user" (user Restore) or "boot"
 	applied     map[uint64]int64 // command index -> seq of hand-off
 }
 
